@@ -1093,6 +1093,29 @@ func stdIntrinsic(name string, fn *ssa.Function) intrinsicFn {
 				sv = &StrV{B: x.bytesOf(s)}
 			}
 			ti := x.tokenOf(sv)
+			if ti != nil && ti.kind == "dec" {
+				// a JSON number: into any/float64 it becomes the nearest float64, into an integer type the exact value
+				dst, _ := a[1].(*IfaceV)
+				if pt, ok := dst.T.(*types.Pointer); ok {
+					p := dst.V.(*Pointer)
+					it := ti.arg.(*Term)
+					if isEmptyIface(pt.Elem()) {
+						x.store(p, &IfaceV{T: types.Typ[types.Float64], V: x.intToFloat(it, types.Typ[types.Int64])})
+						return nilErr
+					}
+					if b, ok := pt.Elem().Underlying().(*types.Basic); ok {
+						if b.Info()&types.IsFloat != 0 {
+							x.store(p, x.intToFloat(it, types.Typ[types.Int64]))
+							return nilErr
+						}
+						if b.Info()&types.IsInteger != 0 {
+							x.store(p, x.fit(it, pt.Elem()))
+							return nilErr
+						}
+					}
+				}
+				return x.newErr("json: cannot unmarshal number")
+			}
 			if ti == nil || ti.kind != "json" {
 				x.abort("UNSUPPORTED", "json.Unmarshal of non-token data (JSON text layer is outside the engine)")
 			}
